@@ -32,7 +32,8 @@ FLOORS = {'round_trips': 150, 'point_uncompiled': 10, 'point_compiled': 10,
           'point_evaluated': 10, 'point_overwritten': 10, 'point_reevaluated': 5, 'gzip_files': 20,
           'plain_files': 20, 'evaluations_compared': 500,
           'reused_loader': 20, 'frozen_formula_models': 10,
-          'overwritten_files': 50, 'loaded_twice': 20}
+          'overwritten_files': 50, 'loaded_twice': 20,
+          'names_compared_after_evaluation': 50}
 ANCHOR_FUNCS = {'xlcalculator/model.py': ['Model.persist_to_json_file',
                                           'Model.construct_from_json_file',
                                           'Model.build_code']}
@@ -274,6 +275,25 @@ def run(ctx):
                          {'cells': build.dict_of(wb), 'point': point,
                           'differences': bad[:10]}, monitor='same-evaluation',
                          group=f'evaluation:{point}')
+            # defined names after both models have been evaluated: a name
+            # bound to a cell shows that cell's current value in both
+            stale = []
+            for n_, d_ in model.defined_names.items():
+                dr = restored.defined_names.get(n_)
+                if hasattr(d_, 'value') and hasattr(dr, 'value') and \
+                        hasattr(d_, 'address'):
+                    vo = nan_safe(monitors.norm(d_.value))
+                    vr = nan_safe(monitors.norm(dr.value))
+                    ctx.event('names_compared_after_evaluation')
+                    if vo != vr:
+                        stale.append((n_, d_.address, vo, vr))
+            if stale:
+                ctx.fail(f'after evaluating both models (point {point!r}) the '
+                         f'defined names show different values: (name, cell, '
+                         f'original, restored) = {stale[:3]}',
+                         {'cells': build.dict_of(wb), 'point': point,
+                          'differences': stale[:10]},
+                         monitor='same-evaluation', group='names-after-eval')
             if ctx.want_sample() and rng.random() < 0.05:
                 ctx.sample({'cells': build.dict_of(wb), 'point': point,
                             'ext': ext, 'gzip': is_gzip,
